@@ -85,28 +85,37 @@ Qed.
    last flag and the root derived from its payload at its index along its path *)
 Theorem accepted_only_if_signed : forall w,
   validate_shred None w = SOk ->
+  index_in_width w = true /\
   w_sig_by_leader w = true /\ w_sig_msg w = commitment_bytes (w_slot w) (w_slice w) (w_last w) (shred_root w).
 Proof.
-  intros w H. unfold validate_shred, sig_verifies in H.
+  intros w H. unfold validate_shred, validate_shred_gen, sig_verifies in H. cbn [andb] in H.
+  destruct (index_in_width w); cbn [negb] in H; [|discriminate]. split; [reflexivity|].
   destruct (w_sig_by_leader w); cbn [andb] in H; [|discriminate].
   destruct (bytes_eqb (w_sig_msg w) (shred_commitment w)) eqn:E; [|discriminate].
   apply bytes_eqb_spec in E. auto.
 Qed.
 
+(* a shred whose index lies beyond the width spanned by its path is never accepted, cached commitment or not;
+   the pinned tree accepted it (the root derivation ignores the surplus index bits) *)
+Theorem alias_index_rejected : forall c w, index_in_width w = false -> validate_shred c w = SInvalidSignature.
+Proof. intros c w H. unfold validate_shred, validate_shred_gen. rewrite H. reflexivity. Qed.
+
 (* a cached commitment only ever shortcuts verification of an identical commitment; a different validly
    signed one is reported as equivocation, anything else as an invalid signature *)
 Theorem cache_shortcuts_only_identical : forall c w,
-  (validate_shred (Some c) w = SOk <-> c = shred_commitment w) /\
+  (validate_shred (Some c) w = SOk <-> index_in_width w = true /\ c = shred_commitment w) /\
   (validate_shred (Some c) w = SEquivocation <->
-     c <> shred_commitment w /\ w_sig_by_leader w = true /\ w_sig_msg w = shred_commitment w).
+     index_in_width w = true /\ c <> shred_commitment w /\ w_sig_by_leader w = true /\ w_sig_msg w = shred_commitment w).
 Proof.
-  intros c w. unfold validate_shred, sig_verifies.
+  intros c w. unfold validate_shred, validate_shred_gen, sig_verifies. cbn [andb].
+  destruct (index_in_width w); cbn [negb].
+  2:{ split; split; try discriminate; intros [X _]; discriminate. }
   destruct (bytes_eqb c (shred_commitment w)) eqn:E.
-  - apply bytes_eqb_spec in E. split; split; try discriminate; auto. intros [H _]. congruence.
+  - apply bytes_eqb_spec in E. split; split; try discriminate; auto. intros [_ [H _]]. congruence.
   - assert (Hne : c <> shred_commitment w) by (intro X; apply bytes_eqb_spec in X; congruence).
     destruct (w_sig_by_leader w); cbn [andb].
     + destruct (bytes_eqb (w_sig_msg w) (shred_commitment w)) eqn:E2.
-      * apply bytes_eqb_spec in E2. split; split; try discriminate; auto; try congruence.
-      * split; split; try discriminate; try congruence. intros [_ [_ X]]. apply bytes_eqb_spec in X. congruence.
-    + split; split; try discriminate; try congruence. intros [_ [X _]]. discriminate.
+      * apply bytes_eqb_spec in E2. split; split; try discriminate; auto; try (intros [_ X]; congruence).
+      * split; split; try discriminate; try (intros [_ X]; congruence). intros [_ [_ [_ X]]]. apply bytes_eqb_spec in X. congruence.
+    + split; split; try discriminate; try (intros [_ X]; congruence). intros [_ [_ [X _]]]. discriminate.
 Qed.
